@@ -9,6 +9,7 @@ import (
 	"os"
 	"runtime/debug"
 	"strconv"
+	"time"
 
 	"github.com/tidwall/geojson"
 	"github.com/tidwall/geojson/geometry"
@@ -63,6 +64,7 @@ func c05MP(args []string) {
 
 type wout struct {
 	nbegin                   int64
+	lastBeat                 time.Time
 	w                        *bufio.Writer
 	slow                     bool
 	evals, states, trans, nt int64
@@ -77,7 +79,7 @@ func (o *wout) fail(class string, c rt.Case, exp, got string) {
 }
 
 func (o *wout) begin(c func() rt.Case) {
-	if o.nbegin++; o.nbegin%4096 == 0 {
+	if o.nbegin++; o.nbegin%4096 == 0 || (o.nbegin%64 == 0 && time.Since(o.lastBeat) > 5*time.Second) {
 		o.beat() // progress marker independent of how the work is sliced and how loaded the machine is
 	}
 	if o.slow {
@@ -90,6 +92,7 @@ func (o *wout) begin(c func() rt.Case) {
 }
 
 func (o *wout) beat() {
+	o.lastBeat = time.Now()
 	o.w.WriteString("P .\n")
 	o.w.Flush()
 }
